@@ -218,3 +218,23 @@ func VxH_C20_unit() {
 	vx.Reach("reparsed")
 	vx.Assert("unit-roundtrip", vxToksEq(back, []Token{tok}))
 }
+
+// any single token followed by the CDC token "-->" (which needs three bytes of source and is
+// out of the byte budget of VxH_C20_pairs): the serializer keeps them apart.
+func VxH_C20_pairs_cdc() {
+	n1 := vx.Choose("n1", 2+vx.Tier()) + 1
+	s1 := vx.Bytes("a", n1)
+	vx.Assume(utf8.Valid(s1))
+	t1 := Tokenize(s1, false)
+	if len(t1) != 1 || vxHasError(t1) || t1[0].Kind() == KComment {
+		vx.Reach("not-a-single-token")
+		return
+	}
+	cdc := Tokenize([]byte("-->"), false)
+	vx.Assert("cdc-is-one-token", len(cdc) == 1)
+	list := []Token{t1[0], cdc[0]}
+	text := Serialize(list)
+	back := Tokenize([]byte(text), false)
+	vx.Reach("reparsed")
+	vx.Assert("pair-roundtrip", vxToksEq(vxNoComments(back), list))
+}
